@@ -80,6 +80,19 @@ def add_post(ctx):
         fr = [c for c in cl if not any(c.name.endswith("result." + f) for f in ("log_likelihood", "t", "n", "sum_px", "sum_pxx"))]
         out += collapse(fr, "C02.%s.frame" % nm, "other unchanged; %s; shape fields kept" % (
             "self updated in place and returned" if nm == "iadd" else "self unchanged, result fresh"))
+        # accumulating into a FRESHLY CONSTRUCTED (empty) container: 0 + other, fieldwise
+        I = new_interp()
+
+        def build_fresh(I=I):
+            return [I.instantiate(I.classes["GMMStats"], [G.Cc, G.Dd], {}), G.mk_stats(I, "b")], {}
+
+        def spec_fresh(ctx_, self, other, op=op):
+            r = self if op == "__iadd__" else Obj(self.cls, dict(self.fields))
+            for f in ("log_likelihood", "t", "n", "sum_px", "sum_pxx"):
+                r.fields[f] = other.fields[f] + 0
+            return r
+        cl2 = K.check_function(I, "gmm.GMMStats." + op, build_fresh, spec_fresh, G.facts(), "C02.%s.fresh" % nm, state_names={0: "self", 1: "other"})
+        out += collapse(cl2, "C02.%s.fresh" % nm, "GMMStats(C, D) %s s has exactly the statistics of s (no field shares storage with another)" % ("+=" if nm == "iadd" else "+"))
         # shape refusal: symbolic, possibly different, dimensions -> raises iff they differ
         I = new_interp()
         cl = K.check_function(I, "gmm.GMMStats." + op, lambda: (list(mk_pair(I, False)), {}), spec,
@@ -189,10 +202,11 @@ def ctrl(ctx):
 GROUPS = [guard(estep_post), guard(resp_lemmas), guard(add_post), guard(split_lemma), guard(transform_post)]
 CONTROLS = [ctrl]
 SHARED = []
-REPLAY = [("C02.estep", "gmm_repro.py", "estep", {}), ("C02.resp", "gmm_repro.py", "estep", {}), ("C02.n.", "gmm_repro.py", "estep", {}),
+REPLAY = [("C02.iadd.fresh", "gmm_repro.py", "fresh_iadd", {}), ("C02.add.fresh", "gmm_repro.py", "fresh_iadd", {}), ("C02.estep", "gmm_repro.py", "estep", {}), ("C02.resp", "gmm_repro.py", "estep", {}), ("C02.n.", "gmm_repro.py", "estep", {}),
           ("C02.add", "gmm_repro.py", "stats_add", {"inplace": False}), ("C02.iadd", "gmm_repro.py", "stats_add", {"inplace": True}),
           ("C02.split", "gmm_repro.py", "stats_add", {"inplace": True}), ("C02.transform", "gmm_repro.py", "estep", {})]
 TRUSTED = ["np.logaddexp.reduce is a stable log-sum-exp (DESIGN §3)",
            "range-split axiom Σ_{b<B} f(b) = f(0) + Σ_{i<B-1} f(i+1) and partition-sum axiom Σ_b Σ_{j<size(b)} f(off(b)+j) = Σ_{s<N} f(s)",
            "non-consecutive blocks follow from consecutive ones by commutativity of + (real arithmetic)"]
 ASSUMPTIONS = ["Valid(m) as in C01", "the list has at least one element where a reduction is taken"]
+XCHECK = ['gmm']
